@@ -130,6 +130,8 @@ class Gen:
         self.sets = []        # handles in creation order, with hints
         self.hint = {}        # handle -> {"fmt":..., "langs":[...]}
         self.last_doc_of_slot = {}
+        self.tapes = {}
+        self.inline_docs = {}
         self.ops = []
 
     def choose_doc(self, fmt, knobs, slot=None):
@@ -140,16 +142,31 @@ class Gen:
             prev = self.last_doc_of_slot.get("fmt:" + fmt)   # the same document read again by another reader object
         if prev is not None and r < knobs["p_repeat_doc"]:
             return prev
+        tapes = self.tapes.setdefault(fmt, [])
+        inl = self.inline_docs.setdefault(fmt, [])
+        if inl and fmt in ("dfxp", "sami") and rng.random() < knobs["p_sibling"] * 0.6:
+            doc = {"inline": docs.attr_sibling(rng, rng.choice(inl))}
+            inl.append(doc["inline"])
+            return doc
+        if tapes and rng.random() < knobs["p_sibling"]:
+            # a sibling of a document generated earlier in this history: same choice tape, a few decisions redrawn
+            t = rng.choice(tapes)
+            tr = docs.TapeRng(rng, t.sibling_tape(rng))
+            doc = {"inline": docs.GEN[fmt](tr)}
+            tapes.append(tr)
+            return doc
         if r < knobs["p_corpus"]:
             return "corpus:" + rng.choice(corpus_names(fmt))
+        tr = docs.TapeRng(rng)
+        tapes.append(tr)
         if fmt == "scc":
             begin = None
             if prev is not None and rng.random() < 0.5:
                 begin = docs.last_control_word(doc_text_local(prev))
-            return {"inline": docs.gen_scc(rng, begin_with=begin)}
+            return {"inline": docs.gen_scc(tr, begin_with=begin)}
         if fmt in ("sami", "dfxp") and rng.random() < knobs["p_multilang"]:
-            return {"inline": docs.GEN[fmt](rng, nlangs=rng.choice([2, 3, 3, 4]))}
-        return {"inline": docs.GEN[fmt](rng)}
+            return {"inline": docs.GEN[fmt](tr, nlangs=rng.choice([2, 3, 3, 4]))}
+        return {"inline": docs.GEN[fmt](tr)}
 
     def new_handle(self):
         h = "s%d" % self.nsets
@@ -179,6 +196,7 @@ def gen_plan(run_seed, prop, tier="quick", faults=True):
         "p_corpus": rng.choice([0.0, 0.3, 0.6, 1.0]),
         "p_repeat_doc": rng.choice([0.0, 0.3, 0.6]),
         "p_multilang": rng.choice([0.2, 0.6, 1.0]),
+        "p_sibling": rng.choice([0.0, 0.3, 0.6]),
         "p_build": rng.choice([0.0, 0.2, 0.5]) if prop == "C09" else rng.choice([0.0, 0.1, 0.3]),
         "reader_pool": rng.choice([0, 1, 1, 2, 3]) if prop == "C10" else 0,
         "writer_pool": rng.choice([0, 1, 1, 2, 3]),
@@ -239,6 +257,12 @@ def gen_plan(run_seed, prop, tier="quick", faults=True):
                 if ctor is None:
                     ctor = reader_ctor(rng, fmt)
                 doc = g.choose_doc(fmt, knobs, slot)
+                if isinstance(doc, dict):
+                    lst = g.inline_docs.setdefault(fmt, [])
+                    if doc["inline"] not in lst:
+                        lst.append(doc["inline"])
+                elif fmt in ("dfxp", "sami"):
+                    g.inline_docs.setdefault(fmt, []).append(doc_text_local(doc))   # corpus documents get siblings too
                 h = g.new_handle()
                 op = {"kind": "read", "cls": docs.READER_OF[fmt], "ctor": ctor, "call": reader_call(rng, fmt),
                       "via": slot or "fresh", "doc": doc, "out": h, "session": s}
@@ -288,7 +312,7 @@ def gen_sweep_base(run_seed, prop, tier="quick", target_cls=None):
     rng = random.Random(run_seed)
     hp = HASH_POOL_QUICK if tier == "quick" else HASH_POOL_THOROUGH
     hs = rng.sample(hp, 3)
-    knobs = {"p_corpus": 0.5, "p_repeat_doc": 0.0, "p_multilang": 0.5}
+    knobs = {"p_corpus": 0.5, "p_repeat_doc": 0.0, "p_multilang": 0.5, "p_sibling": 0.3}
     g = Gen(rng, prop, tier)
     ops = []
 
